@@ -93,6 +93,8 @@ def delimiter_rule(ctx, rule, repo, dv):
     if not joins:
         raise AnalysisError("encode: no join() found")
     for c in joins:
+        if dv.fold_str(c.func.value) == "":
+            continue  # concatenation: nothing is put between the parts (whether each part carries its own separator is C02's frame-shape clause)
         ok = dv.fold_str(c.func.value) == dv.soh
         ctx.instance(rule, f"Codec.encode[{short(c, 40)}]", ok, f"the encoder joins fields with `{unparse(c.func.value)}`, not with the separator the decoder splits on", loc(c))
     splits = [c for c in walk_no_nested(dv.fn) if isinstance(c, ast.Call) and isinstance(c.func, ast.Attribute) and c.func.attr == "split" and c.args
